@@ -198,6 +198,14 @@ class Universe:
                     out.append(ns)
         return out
 
+    def export_field(self, f):
+        out = {"name": f.name, "init": f.init}
+        if f.default is not MISSING:
+            out["default"] = self.to_val(f.default)
+        elif f.default_factory is not MISSING:
+            out["default"] = self.to_val(f.default_factory())
+        return out
+
     def export_ctx(self):
         """Export the metadata of every class under every parent namespace, each built
         by a fresh builder so that no cache history leaks into the metadata."""
@@ -213,14 +221,7 @@ class Universe:
                     "metas": metas,
                     "mro": [k.__name__ for k in cls.__mro__ if k is not object],
                     "bases": [k.__name__ for k in cls.__bases__ if k is not object],
-                    "fields": [
-                        {
-                            "name": f.name,
-                            "init": f.init,
-                            "has_default": f.default is not MISSING or f.default_factory is not MISSING,
-                        }
-                        for f in fields(cls)
-                    ],
+                    "fields": [self.export_field(f) for f in fields(cls)],
                 }
             )
         ctx2 = XmlContext(models_package=self.modname)
